@@ -17,6 +17,10 @@ def st(i):
     if a.get("no_failing_input_only"): return "caught only as broken tie (no-failing-input-found): " + ",".join(a["what"])[:120]
     return "caught: " + ",".join(a["what"])[:160]
 lines = "\n".join(f"  {i}: {st(i)}" for i in allids)
+extra = ""
+ef = f"/var/tmp/extra-{pid}.txt"
+if os.path.exists(ef):
+    extra = "EXTRA NOTES FROM THE COORDINATOR:\n" + open(ef).read().strip() + "\n\n"
 print(f"""You are extending the verification of ONE property, {pid}, of Icinga 2 inside the framework in /verif (technique fixed: machine-checked proof in Lean 4 about a hand-written executable model + a correspondence check that runs the real C++ and the model on the same operations + the specification predicate evaluated on the implementation's own trace). The framework and the check for {pid} already exist, pass on the unchanged tree, and are registered. Your job is to make them cover MORE and detect MORE, without ever raising an alarm on code where the property holds.
 
 Read first, in this order:
@@ -42,4 +46,4 @@ GOALS, in priority order:
 
 Constraints: edit ONLY the files of {pid} (lean/IcingaModel/{pid}/, lean/IcingaProofs/{pid}.lean, lean/IcingaProofs/{pid}/, lean/Driver/{pid}.lean, harness/{p}.cpp (+ {p}_*.c*), checks/{p}.py, corpus/{pid}/, gen/{p}_*.py, and the {pid} entries of known_findings.json — edit that file with a short python snippet that loads, changes and rewrites it in one go, other agents edit other entries). Other agents are working on other properties in the same tree at the same time: do not touch their files, vlib/, check, MANIFEST.json, DESIGN.md, lakefile.toml, or /repo; an unavoidable change to a shared file must be additive and listed in your report. Do not `git commit`. The machine is shared (16 cores, ~20 agents): do not run more than two heavy commands at a time. Scratch files: /verif/_work/scratch/{p}/ . Budget: about 2 hours of work; prefer finishing A completely and the most valuable two or three items of B/C over starting everything. Leave the tree in a state where `./check {pid}` passes on the unchanged tree — if an extension is unfinished when time runs out, take it out again (keep it under _work/scratch/{p}/ and mention it).
 
-FINAL REPORT (your last message, ≤ 450 words): per seeded change the clause that now catches it; new/strengthened theorems (names + one line each); what moved from oracle/unmodelled into the model; defects found on the unchanged tree (witness, proposed repair); clean-tree results per seed and tier with wall times; regression line per seeded id; shared files touched; what remains.""")
+{extra}FINAL REPORT (your last message, ≤ 450 words): per seeded change the clause that now catches it; new/strengthened theorems (names + one line each); what moved from oracle/unmodelled into the model; defects found on the unchanged tree (witness, proposed repair); clean-tree results per seed and tier with wall times; regression line per seeded id; shared files touched; what remains.""")
